@@ -1099,6 +1099,14 @@ pub fn run_handshake_stall(cfg: &ScenCfg, out: &mut RunOut) {
             stalled.push(p);
         }
         kernel::advance(1_000 * MS);
+        // a decode-level change reaches the sessions while they are still handshaking
+        let mut handle = handle;
+        if chance(1, 2) {
+            let mut fut = Box::pin(handle.set_decode_level(decode_level(choose(36) as u8)));
+            let _ = kernel::block_on(fut.as_mut());
+            kernel::settle();
+            out.probe("decode_change_during_handshake");
+        }
         let evict_expected = n > max_sessions;
         // eviction: the oldest stalled sessions beyond the limit must be closed
         if evict_expected && !stall_is_garbage {
@@ -1131,4 +1139,246 @@ pub fn run_handshake_stall(cfg: &ScenCfg, out: &mut RunOut) {
     }
     out.ops_checked = 1;
     out.nontrivial = Some(wl);
+}
+
+// ---------------------------------------------------------------------------
+// C15 on a TLS server: established TLS sessions, failed handshakes and stalled
+// handshakes all go through the session tracker
+
+enum PeerCmd {
+    Sentinel(u16),
+    Close,
+}
+
+#[derive(Default)]
+struct TlsPeerLog {
+    handshake: Option<bool>,
+    replies: Vec<Vec<u8>>,
+    closed: bool,
+}
+
+enum Kind {
+    Tls(simtokio::sync::mpsc::UnboundedSender<PeerCmd>, Arc<Mutex<TlsPeerLog>>),
+    Raw(net::PeerEnd),
+}
+
+pub fn run_tls_sessions(cfg: &ScenCfg, out: &mut RunOut) {
+    let sched = chance(1, 2);
+    let chunk = chance(1, 2);
+    kernel::with(|w| {
+        w.cfg.sched_random = sched;
+        w.cfg.select_random = sched;
+        w.cfg.chunk_reads = chunk;
+    });
+    let (dec_idx, decode) = pick_decode(&cfg.decode);
+    let tls = TlsServerConfig::new(
+        &fixture("ca1_cert.pem"),
+        &fixture("srv_ok_cert.pem"),
+        &fixture("srv_ok_key.pem"),
+        None,
+        MinTlsVersion::V1_2,
+        CertificateMode::AuthorityBased,
+    )
+    .expect("server config");
+    let journal: Journal = Arc::new(Mutex::new(Vec::new()));
+    let mem = UnitMem::new(0xC15);
+    let handler = MemHandler { unit: 1, mem: mem.clone(), journal: journal.clone() }.wrap();
+    let map = ServerHandlerMap::single(UnitId::new(1), handler);
+    let addr: SocketAddr = "10.0.0.1:802".parse().unwrap();
+    let listener = TcpListener::bind_now(addr).unwrap();
+    let max_sessions = 1 + choose(3) as usize;
+    let (handle, task) = create_tls_server_task(max_sessions, listener, map, tls, AddressFilter::Any, decode);
+    let task = simtokio::task::spawn_named("tls-server", task.run());
+    kernel::settle();
+    let mut conns: Vec<(usize, Kind)> = Vec::new();
+    let mut live: Vec<usize> = Vec::new();
+    let mut next_id = 0usize;
+    let mut wl = dec_idx as u64 | (max_sessions as u64) << 8;
+    let mut trace = Vec::new();
+    let mut tx = 0u16;
+    let mut server_up = true;
+    let n = 4 + choose(12) as usize;
+    for _ in 0..n {
+        let kind = if server_up { weighted(&[5, 3, 2, 4, 2, 1]) } else { 0 };
+        hash_bytes(&mut wl, &[kind as u8]);
+        match kind {
+            0 => {
+                // a TLS client with a valid certificate
+                let id = next_id;
+                next_id += 1;
+                let (ctx, mut crx) = simtokio::sync::mpsc::unbounded_channel::<PeerCmd>();
+                let log = Arc::new(Mutex::new(TlsPeerLog::default()));
+                let l2 = log.clone();
+                let pcfg = peer_client_config(2, "cli_operator_cert.pem", "cli_operator_key.pem");
+                kernel::with(|w| w.net.client_ip = Some(format!("10.0.6.{}", 1 + id % 200).parse().unwrap()));
+                simtokio::task::spawn_named("tls-peer", async move {
+                    let tcp = match TcpStream::connect(addr).await {
+                        Ok(t) => t,
+                        Err(_) => {
+                            let mut l = l2.lock().unwrap();
+                            l.handshake = Some(false);
+                            l.closed = true;
+                            return;
+                        }
+                    };
+                    let connector = tokio_rustls::TlsConnector::from(pcfg);
+                    let mut stream = match connector.connect(ServerName::try_from("test.com").unwrap(), tcp).await {
+                        Ok(s) => s,
+                        Err(_) => {
+                            let mut l = l2.lock().unwrap();
+                            l.handshake = Some(false);
+                            l.closed = true;
+                            return;
+                        }
+                    };
+                    l2.lock().unwrap().handshake = Some(true);
+                    let mut buf = [0u8; 128];
+                    loop {
+                        simtokio::select! {
+                            c = crx.recv() => match c {
+                                Some(PeerCmd::Sentinel(t)) => {
+                                    if stream.write_all(&mbap_frame(t, 1, &[4, 0, 3, 0, 1])).await.is_err() {
+                                        l2.lock().unwrap().closed = true;
+                                        return;
+                                    }
+                                }
+                                Some(PeerCmd::Close) | None => return,
+                            },
+                            r = stream.read(&mut buf) => match r {
+                                Ok(0) | Err(_) => {
+                                    l2.lock().unwrap().closed = true;
+                                    return;
+                                }
+                                Ok(k) => l2.lock().unwrap().replies.push(buf[..k].to_vec()),
+                            }
+                        }
+                    }
+                });
+                kernel::settle();
+                if server_up {
+                    if live.len() >= max_sessions {
+                        live.remove(0);
+                        out.probe("eviction");
+                    }
+                    live.push(id);
+                }
+                conns.push((id, Kind::Tls(ctx, log)));
+                trace.push(format!("tls connect #{}", id));
+            }
+            1 => {
+                // the handshake fails: garbage instead of a ClientHello; the slot must be released
+                let id = next_id;
+                next_id += 1;
+                let p = net::connect_from(addr, format!("10.0.7.{}:{}", 1 + id % 200, 5000 + id).parse().unwrap());
+                if let Some(p) = p {
+                    // accepted at the limit like any other connection
+                    if live.len() >= max_sessions {
+                        live.remove(0);
+                        out.probe("eviction");
+                    }
+                    p.write(&[0x47, 0x45, 0x54, 0x20, 0x2f, 0x20, 0x48, 0x54, 0x54, 0x50, 0x0d, 0x0a]);
+                    kernel::settle();
+                    conns.push((id, Kind::Raw(p)));
+                    out.probe("failed_handshake");
+                    trace.push(format!("garbage connect #{} (handshake fails)", id));
+                }
+            }
+            2 => {
+                // a silent peer: stays in the handshake and occupies a slot
+                let id = next_id;
+                next_id += 1;
+                if let Some(p) = net::connect_from(addr, format!("10.0.8.{}:{}", 1 + id % 200, 6000 + id).parse().unwrap()) {
+                    kernel::settle();
+                    if live.len() >= max_sessions {
+                        live.remove(0);
+                        out.probe("eviction");
+                    }
+                    live.push(id);
+                    conns.push((id, Kind::Raw(p)));
+                    trace.push(format!("silent connect #{} (stalls in the handshake)", id));
+                }
+            }
+            3 => {
+                // sentinel over an established TLS session
+                let tls_live: Vec<usize> = live.iter().copied().filter(|id| matches!(conns.iter().find(|c| c.0 == *id), Some((_, Kind::Tls(..))))).collect();
+                if !tls_live.is_empty() {
+                    let id = tls_live[choose(tls_live.len() as u32) as usize];
+                    if let Some((_, Kind::Tls(ctx, log))) = conns.iter().find(|c| c.0 == id) {
+                        tx = tx.wrapping_add(1);
+                        let before = log.lock().unwrap().replies.len();
+                        let _ = ctx.send(PeerCmd::Sentinel(tx));
+                        kernel::settle();
+                        let v = mem.read_reg(4, 3).unwrap();
+                        let want = mbap_frame(tx, 1, &[4, 2, (v >> 8) as u8, v as u8]);
+                        let got: Vec<u8> = log.lock().unwrap().replies[before..].concat();
+                        if got != want {
+                            out.violate("C15", "live_tls_session_not_served", format!("TLS session {} (live per model {:?}, limit {}) answered {} expected {}", id, live, max_sessions, hex(&got), hex(&want)));
+                            return;
+                        }
+                        out.ops_checked += 1;
+                        trace.push(format!("request on #{}", id));
+                    }
+                }
+            }
+            4 => {
+                // a live peer goes away
+                if !live.is_empty() {
+                    let pos = choose(live.len() as u32) as usize;
+                    let id = live.remove(pos);
+                    if let Some(i) = conns.iter().position(|c| c.0 == id) {
+                        match &mut conns[i].1 {
+                            Kind::Tls(ctx, _) => {
+                                let _ = ctx.send(PeerCmd::Close);
+                            }
+                            Kind::Raw(p) => p.close(),
+                        }
+                    }
+                    kernel::settle();
+                    trace.push(format!("peer #{} closes", id));
+                }
+            }
+            _ => {
+                let mut fut = Box::pin(handle.shutdown());
+                let _ = kernel::block_on(fut.as_mut());
+                drop(fut);
+                kernel::settle();
+                server_up = false;
+                live.clear();
+                trace.push("shutdown".into());
+            }
+        }
+        kernel::settle();
+        // which connections are open from the peers' point of view?
+        let mut open: Vec<usize> = Vec::new();
+        for (id, k) in &conns {
+            let is_open = match k {
+                Kind::Tls(ctx, log) => {
+                    let l = log.lock().unwrap();
+                    !l.closed && l.handshake == Some(true) && !ctx.is_closed()
+                }
+                Kind::Raw(p) => !p.remote_closed() && !p.is_closed(),
+            };
+            if is_open {
+                open.push(*id);
+            }
+        }
+        let mut want = live.clone();
+        want.sort();
+        if open != want {
+            let rule = if open.len() > want.len() { "tls_session_not_closed" } else { "tls_wrong_session_closed" };
+            out.violate("C15", rule, format!("TLS server max_sessions={}: open connections {:?}, model expects {:?} (oldest first {:?}) after: {:?}", max_sessions, open, want, live, trace.last()));
+            return;
+        }
+        out.state((live.len() as u64) | (max_sessions as u64) << 4 | (server_up as u64) << 8);
+    }
+    if !server_up && !task.is_finished() {
+        out.violate("C15", "server_task_survives_shutdown", "TLS server task still running after shutdown".into());
+    }
+    out.nontrivial = Some(wl);
+    out.sample = Some(json!({"scenario": "tls server sessions", "max_sessions": max_sessions, "actions": trace.iter().take(20).collect::<Vec<_>>()}));
+    if server_up {
+        let mut fut = Box::pin(handle.shutdown());
+        let _ = kernel::block_on(fut.as_mut());
+    }
+    kernel::settle();
 }
